@@ -126,6 +126,18 @@ func mkFacts(store J) (*facts, error) {
 			build(pv, t)
 			if ft, ok := pv.Interface().(*Fact); ok && ft != nil {
 				ft.h = f.rc
+				if ft.P != nil {
+					ft.P.h = f.rc
+				}
+				if ft.Q != nil {
+					ft.Q.h = f.rc
+				}
+				ft.V.h = f.rc
+				for _, sp := range ft.AP {
+					if sp != nil {
+						sp.h = f.rc
+					}
+				}
 			}
 			f.roots[name] = pv
 			if err := f.dctx.Add(name, pv.Interface()); err != nil {
